@@ -1,36 +1,40 @@
-"""Self-test: apply each mutant to /repo, run the quick check of the property expected to catch
-it (and optionally the repo's own tests), undo. usage: run.py [--tests] [name-substring ...]"""
-import glob, os, subprocess, sys, time
+"""Self-test against code changes: every confirmed seeded change (seeded/<id>/patch.diff) and the hand-written
+ones (selftest/mutants/<name>.<PROP>.diff) is applied in a scratch git worktree (never in /repo) and the quick
+check of its property is run against it (VERIF_REPO). usage: selftest/run.py [name-substring ...]"""
+import glob, json, os, shutil, subprocess, sys, time
 
 V = os.path.dirname(os.path.dirname(os.path.abspath(__file__)))
-args = [a for a in sys.argv[1:] if not a.startswith("--")]
-with_tests = "--tests" in sys.argv
+args = sys.argv[1:]
 rows = []
 for p in sorted(glob.glob(os.path.join(V, "selftest/mutants/*.diff")) + glob.glob(os.path.join(V, "seeded/*/patch.diff"))):
-    base = os.path.basename(p)
     if "seeded/" in p:
         name = os.path.basename(os.path.dirname(p))
-        import json
         prop = json.load(open(os.path.join(os.path.dirname(p), "meta.json")))["property"]
     else:
-        name, prop, _ = base.rsplit(".", 2)
+        name, prop, _ = os.path.basename(p).rsplit(".", 2)
     if args and not any(a in name or a == prop for a in args):
         continue
-    subprocess.check_call(["git", "-C", "/repo", "diff", "--quiet"])
-    subprocess.check_call(["git", "-C", "/repo", "apply", p])
+    d = f"/tmp/mw/self-{name}"
+    subprocess.run(["git", "-C", "/repo", "worktree", "remove", "--force", d], capture_output=True)
+    shutil.rmtree(d, ignore_errors=True)
+    os.makedirs("/tmp/mw", exist_ok=True)
+    subprocess.check_call(["git", "-C", "/repo", "worktree", "add", "--detach", d, "HEAD"], stdout=subprocess.DEVNULL, stderr=subprocess.DEVNULL)
     try:
-        tests = "-"
-        if with_tests:
-            r = subprocess.run("cd /repo && PYTHONPATH=/repo/src /venv/bin/python -m pytest -q -x -p no:cacheprovider --timeout=900 2>&1 | tail -1", shell=True, capture_output=True, text=True)
-            tests = "pass" if " passed" in r.stdout and "failed" not in r.stdout else "FAIL"
+        if subprocess.run(["git", "-C", d, "apply", p], capture_output=True).returncode:
+            rows.append((name, prop, "does-not-apply", None))
+            print(rows[-1], flush=True)
+            continue
+        ev = f"/tmp/mw/ev-self-{name}"
+        os.makedirs(ev, exist_ok=True)
         t0 = time.time()
-        r = subprocess.run([os.path.join(V, "check"), prop, "--tier", "quick"], capture_output=True, text=True, cwd=V)
-        viol = [l for l in r.stdout.splitlines() if l.startswith("VIOLATION") or l.startswith("  violated")]
-        rows.append((name, prop, tests, r.returncode, round(time.time() - t0), viol[:2]))
+        r = subprocess.run([os.path.join(V, "check"), prop, "--tier", "quick"], capture_output=True, text=True, cwd=V,
+                           env=dict(os.environ, VERIF_REPO=d, VERIF_EVIDENCE_DIR=ev, VERIF_REPLAYS_DIR=ev))
+        viol = [l.strip()[:160] for l in r.stdout.splitlines() if l.strip().startswith("violated")]
+        rows.append((name, prop, {0: "missed", 1: "caught", 2: "machinery"}.get(r.returncode, r.returncode), round(time.time() - t0), viol[:1]))
         print(rows[-1], flush=True)
-        if r.returncode == 2:
-            print(r.stderr[-1500:])
+        shutil.rmtree(ev, ignore_errors=True)
     finally:
-        subprocess.check_call(["git", "-C", "/repo", "checkout", "--", "."])
-caught = sum(1 for r in rows if r[3] == 1)
-print(f"caught {caught}/{len(rows)}")
+        subprocess.run(["git", "-C", "/repo", "worktree", "remove", "--force", d], capture_output=True)
+        shutil.rmtree(d, ignore_errors=True)
+subprocess.run(["git", "-C", "/repo", "worktree", "prune"], capture_output=True)
+print(f"caught {sum(1 for r in rows if r[2] == 'caught')}/{len(rows)}")
